@@ -159,12 +159,38 @@ func (st *State) intrinsic(g *G, fr *Frame, name string, fn *ssa.Function, args 
 			}
 		}
 		return BV(64, uint64(n)), false
+	case "FireTickers":
+		// one tick: every ticker channel some goroutine currently waits on delivers once
+		n := 0
+		for _, o := range st.gs {
+			if o.Status != "blocked" || o.Wait == nil {
+				continue
+			}
+			for _, sc := range o.Wait.sel {
+				if sc.ch != nil && sc.ch.Timer && sc.ch.Label == "ticker" && sc.ch.Fired {
+					sc.ch.Fired = false
+					sc.ch.Ready = true
+					n++
+				}
+			}
+			if c := o.Wait.ch; c != nil && c.Timer && c.Label == "ticker" && c.Fired {
+				c.Fired = false
+				c.Ready = true
+				n++
+			}
+		}
+		return BV(64, uint64(n)), false
 	case "SetTimers":
 		st.timersOn = args[0].(*Term).IsTrue()
 		return nil, false
-	case "RunSpawned", "RunSpawnedExcept":
-		match := constStr(args[0])
-		except := base == "RunSpawnedExcept"
+	case "RunSpawned", "RunSpawnedExcept", "RunImmediate":
+		// RunImmediate: every parked goroutine runs (name independent); with timers switched off the ones that sleep
+		// first block at their time.After and continue when the harness lets that much time pass (FireTimersUpTo)
+		match, except := "\x00no-such-goroutine", true
+		if base != "RunImmediate" {
+			match = constStr(args[0])
+			except = base == "RunSpawnedExcept"
+		}
 		var kids []int
 		for _, o := range st.gs {
 			if o.Status == "parked" && strings.Contains(o.Name, match) != except {
@@ -232,6 +258,9 @@ func (st *State) intrinsic(g *G, fr *Frame, name string, fn *ssa.Function, args 
 			}
 		}
 		return BV(64, uint64(n)), false
+	case "LocksHeld":
+		// number of mutexes the calling goroutine still holds (a handler that returns with a lock held wedges the next one)
+		return BV(64, uint64(len(g.Held))), false
 	case "MutexHeld":
 		p := args[0].(PtrVal)
 		if p.L != nil && p.L.Mu != nil && p.L.Mu.Locked {
